@@ -1056,7 +1056,15 @@ class Process(StateMachine, persistence.Savable, metaclass=ProcessStateMachineMe
                     ) from exc
                 else:
                     while asyncio.isfuture(result):
-                        result = await result
+                        try:
+                            result = await result
+                        except asyncio.CancelledError:
+                            if not result.cancelled():
+                                # It is this task that is being cancelled
+                                raise
+                            # The action was cancelled, e.g. a pending pause that was withdrawn by a play
+                            kiwi_future.cancel()
+                            return
 
                     kiwi_future.set_result(result)
 
